@@ -201,6 +201,8 @@ fn file_level_cases() -> (u64, Vec<Violation>) {
                 (None, false, format!("src/{}", name)),
                 (Some("out/result.lua"), false, "out/result.lua".to_owned()),
                 (Some("outdir"), true, format!("outdir/{}", name.rsplit('/').next().unwrap())),
+                (Some("outdir.v2"), true, format!("outdir.v2/{}", name.rsplit('/').next().unwrap())),
+                (Some("out.d/deep.er"), true, format!("out.d/deep.er/{}", name.rsplit('/').next().unwrap())),
                 (Some("newdir"), false, format!("newdir/{}", name.rsplit('/').next().unwrap())),
             ] {
                 n += 1;
@@ -211,7 +213,7 @@ fn file_level_cases() -> (u64, Vec<Violation>) {
                 let _ = resources.write("src/other.lua", "return 2\n");
                 let _ = resources.write(".darklua.json", CONFIG);
                 if existing_dir {
-                    let _ = resources.write("outdir/keep.me", "foreign");
+                    let _ = resources.write(format!("{}/keep.me", output.unwrap()), "foreign");
                 }
                 let mut options = Options::new(&input).with_configuration_at(".darklua.json");
                 if let Some(o) = output {
@@ -231,7 +233,7 @@ fn file_level_cases() -> (u64, Vec<Violation>) {
                 };
                 let mut problems = Vec::new();
                 let written: Vec<String> = resources.walk("").map(|p| p.to_string_lossy().into_owned()).collect();
-                let mut allowed = vec![input.clone(), "src/other.lua".to_owned(), ".darklua.json".to_owned(), "outdir/keep.me".to_owned()];
+                let mut allowed = vec![input.clone(), "src/other.lua".to_owned(), ".darklua.json".to_owned(), format!("{}/keep.me", output.unwrap_or("outdir"))];
                 if fault == Fault::Healthy {
                     allowed.push(expected_out.clone());
                     if !errors.is_empty() {
@@ -360,6 +362,264 @@ fn real_fs_cases() -> (u64, Vec<Violation>) {
     (n, violations)
 }
 
+/// the same directory named in different ways (`src`, `./src`, `src/`, `.`...) maps every file to the same mirrored output
+fn input_shape_cases() -> (u64, Vec<Violation>) {
+    let tree: &[(&str, &str)] = &[("src/a.lua", "-- a\nreturn 1\n"), ("src/d/c.lua", "do end\nreturn 'c'\n"), ("src/d/e f.luau", "-- e\nreturn 3\n"), ("main.lua", "-- m\nreturn 0\n"), ("n.txt", "text")];
+    let config = "{rules: ['remove_comments', 'remove_empty_do']}";
+    // reference content: each file processed on its own
+    let mut reference = BTreeMap::new();
+    for (p, c) in tree.iter().filter(|(p, _)| p.ends_with(".lua") || p.ends_with(".luau")) {
+        let r = Resources::from_memory();
+        let _ = r.write(p, c);
+        let _ = r.write(".darklua.json", config);
+        let res = r.clone();
+        let p2 = p.to_string();
+        let _ = guarded(move || darklua_core::process(&res, Options::new(&p2).with_configuration_at(".darklua.json")));
+        reference.insert(p.to_string(), r.get(p).unwrap_or_default());
+    }
+    let mut n = 0;
+    let mut violations = Vec::new();
+    // (input spelling, prefix of the files it covers)
+    let inputs: &[(&str, &str)] = &[("src", "src/"), ("./src", "src/"), ("src/", "src/"), ("src/.", "src/"), ("./src/", "src/"), ("src/d/..", "src/"), ("src/d", "src/d/"), ("./src/d/", "src/d/"), (".", ""), ("./", ""), ("src/..", "")];
+    let outputs: &[Option<&str>] = &[None, Some("out"), Some("./out"), Some("out/")];
+    for (input, prefix) in inputs {
+        for output in outputs {
+            n += 1;
+            let r = Resources::from_memory();
+            for (p, c) in tree {
+                let _ = r.write(p, c);
+            }
+            let _ = r.write(".darklua.json", config);
+            let mut options = Options::new(input).with_configuration_at(".darklua.json");
+            if let Some(o) = output {
+                options = options.with_output(o);
+            }
+            let res = r.clone();
+            let outcome = match guarded(move || darklua_core::process(&res, options)) {
+                Ok(o) => o,
+                Err(p) => {
+                    violations.push(Violation { finding: None, summary: format!("PANIC in process: {} (input {:?} output {:?})", p, input, output), replay: json!({"kind": "input shape", "input": input, "output": output}) });
+                    continue;
+                }
+            };
+            let errors: Vec<String> = match &outcome {
+                Ok(tree) => tree.collect_errors().iter().map(|e| e.to_string()).collect(),
+                Err(e) => vec![format!("FATAL {}", e)],
+            };
+            let mut problems = Vec::new();
+            if !errors.is_empty() {
+                problems.push(format!("errors for a healthy tree: {:?}", errors));
+            }
+            let mut expected: BTreeMap<String, String> = tree.iter().map(|(p, c)| (p.to_string(), c.to_string())).collect();
+            expected.insert(".darklua.json".to_owned(), config.to_owned());
+            for (p, _) in tree.iter().filter(|(p, _)| (p.ends_with(".lua") || p.ends_with(".luau")) && p.starts_with(prefix)) {
+                let dest = match output {
+                    None => p.to_string(),
+                    Some(_) => format!("out/{}", &p[prefix.len()..]),
+                };
+                expected.insert(dest, reference[*p].clone());
+            }
+            let mut got = BTreeMap::new();
+            for path in r.walk("") {
+                got.insert(path.to_string_lossy().replace('\\', "/"), r.get(&path).unwrap_or_default());
+            }
+            if errors.is_empty() && got != expected {
+                for (k, v) in &expected {
+                    match got.get(k) {
+                        None => problems.push(format!("{} is missing", k)),
+                        Some(g) if g != v => problems.push(format!("{} is {:?}, expected {:?}", k, g, v)),
+                        _ => {}
+                    }
+                }
+                for k in got.keys() {
+                    if !expected.contains_key(k) {
+                        problems.push(format!("unexpected file {}", k));
+                    }
+                }
+            }
+            if !problems.is_empty() {
+                violations.push(Violation {
+                    finding: None,
+                    summary: format!("{}\n--- directory input spelled {:?}, output {:?}", problems.join("\n"), input, output),
+                    replay: json!({"kind": "input shape", "input": input, "output": output}),
+                });
+            }
+        }
+    }
+    (n, violations)
+}
+
+const RICH_CONFIG: &str = "{rules: ['remove_comments', 'remove_spaces', 'remove_assertions', 'remove_debug_profiling', 'remove_continue', 'remove_compound_assignment', 'remove_if_expression', \
+    'remove_interpolated_string', 'remove_method_call', 'remove_types', 'remove_floor_division', 'convert_luau_number', 'compute_expression', 'remove_unused_variable', 'group_local_assignment', \
+    {rule: 'inject_global_value', identifier: 'G', value: 1}, {rule: 'append_text_comment', text: 'tail', location: 'end'}, 'convert_index_to_field', 'remove_nil_declaration', \
+    'remove_unused_if_branch', 'remove_unused_while', 'filter_after_early_return', 'remove_empty_do', 'remove_method_definition', 'remove_function_call_parens'], generator: 'dense'}";
+
+const RICH_CONTENTS: &[&str] = &[
+    "local select = f\nlocal v = assert(f(), 'm')\nlocal w = assert(g(), 'n', 2)\nreturn v, w, select\n",
+    "local select = f\nlocal v = assert(f(), 'm')\nlocal w = assert(g(), 'n', 2)\nreturn v, w, select\n",
+    "for i = 1, 3 do if i == 2 then continue end t[i] += 1 print(`v{i}`, if i then 1 else 2) end\nfor j = 1, 2 do while j do if j then continue end end end\nreturn t\n",
+    "local t = {}\nt[f()].x += 1\nt[g()][h()] //= 2\nlocal s = ('x'):rep(3)\ndebug.profilebegin('p')\nreturn G, t, s, assert(t, 'a', 'b')\n",
+    "return 1\n",
+];
+
+/// every file of a batch is written exactly as when it is processed alone, whatever the other files contain and in whatever order they are visited
+fn isolation_cases() -> (u64, Vec<Violation>) {
+    let names = ["a.lua", "b.luau", "d/c.lua"];
+    let alone: Vec<Result<String, String>> = RICH_CONTENTS
+        .iter()
+        .map(|c| {
+            let r = Resources::from_memory();
+            let _ = r.write("src/x.lua", c);
+            let _ = r.write(".darklua.json", RICH_CONFIG);
+            let res = r.clone();
+            match guarded(move || darklua_core::process(&res, Options::new("src").with_configuration_at(".darklua.json").with_output("out"))) {
+                Ok(Ok(t)) if t.collect_errors().is_empty() => r.get("out/x.lua").map_err(|e| format!("{:?}", e)),
+                Ok(Ok(t)) => Err(format!("{:?}", t.collect_errors().iter().map(|e| e.to_string()).collect::<Vec<_>>())),
+                Ok(Err(e)) => Err(e.to_string()),
+                Err(p) => Err(format!("PANIC {}", p)),
+            }
+        })
+        .collect();
+    let k = RICH_CONTENTS.len();
+    let mut cases = Vec::new();
+    for assign in 0..k.pow(names.len() as u32) {
+        for perm in 0..24 {
+            cases.push((assign, perm));
+        }
+    }
+    let results: Vec<Vec<Violation>> = cases
+        .par_iter()
+        .map(|(assign, perm)| {
+            let mut v = Vec::new();
+            let mut x = *assign;
+            let mut chosen = Vec::new();
+            for _ in 0..names.len() {
+                chosen.push(x % k);
+                x /= k;
+            }
+            let r = Resources::from_memory();
+            for (n, c) in names.iter().zip(&chosen) {
+                let _ = r.write(format!("src/{}", n), RICH_CONTENTS[*c]);
+            }
+            let _ = r.write(".darklua.json", RICH_CONFIG);
+            let res = r.clone();
+            darklua_core::verif_hooks::set_walk_permutation(*perm);
+            let outcome = guarded(move || darklua_core::process(&res, Options::new("src").with_configuration_at(".darklua.json").with_output("out")));
+            darklua_core::verif_hooks::set_walk_permutation(0);
+            let describe = format!("contents {:?} of {:?}, walk permutation {}", chosen, names, perm);
+            match outcome {
+                Err(p) => v.push(Violation { finding: None, summary: format!("PANIC in process: {}\n--- {}", p, describe), replay: json!({"kind": "isolation", "contents": chosen, "permutation": perm}) }),
+                Ok(Err(e)) => v.push(Violation { finding: None, summary: format!("fatal error {}\n--- {}", e, describe), replay: json!({"kind": "isolation", "contents": chosen, "permutation": perm}) }),
+                Ok(Ok(_)) => {
+                    for (n, c) in names.iter().zip(&chosen) {
+                        let got = r.get(format!("out/{}", n)).ok();
+                        if let Ok(want) = &alone[*c] {
+                            if got.as_ref() != Some(want) {
+                                v.push(Violation {
+                                    finding: None,
+                                    summary: format!("out/{} differs from the output of the same source processed alone\n    in the batch: {:?}\n    alone:        {:?}\n--- {}", n, got, want, describe),
+                                    replay: json!({"kind": "isolation", "contents": chosen, "permutation": perm, "file": n}),
+                                });
+                            }
+                        }
+                    }
+                }
+            }
+            v
+        })
+        .collect();
+    let mut violations: Vec<Violation> = results.into_iter().flatten().collect();
+    for (i, a) in alone.iter().enumerate() {
+        if let Err(e) = a {
+            violations.push(Violation { finding: None, summary: format!("rich content {} cannot be processed alone: {}", i, e), replay: json!({"kind": "isolation alone", "content": i}) });
+        }
+    }
+    (cases.len() as u64, violations)
+}
+
+/// byte-exact agreement between a real directory and the in-memory run of the same tree, and a second run into the same
+/// output directory after sources shrank, grew and disappeared
+fn real_fs_exact_cases() -> (u64, Vec<Violation>) {
+    use std::fs;
+    let config = "{rules: ['remove_comments', 'remove_empty_do'], generator: 'dense'}";
+    let v1: &[(&str, &str)] = &[
+        ("ok.lua", "-- a long comment that makes the source much longer than its output\nlocal function compute(a, b)\n    return a + b\nend\nreturn compute(1, 2)\n"),
+        ("d/two.luau", "do end\nreturn 2\n"),
+        ("d.v2/three.lua", "-- c\nreturn 3\n"),
+    ];
+    let v2: &[(&str, &str)] = &[("ok.lua", "return 1\n"), ("d/two.luau", "do end\nreturn 2, 'now longer than before', { 1, 2, 3 }\n"), ("d.v2/three.lua", "-- c\nreturn 3\n")];
+    let memory = |files: &[(&str, &str)], in_place: bool| -> BTreeMap<String, String> {
+        let r = Resources::from_memory();
+        for (p, c) in files {
+            let _ = r.write(format!("src/{}", p), c);
+        }
+        let _ = r.write(".darklua.json", config);
+        let mut options = Options::new("src").with_configuration_at(".darklua.json");
+        if !in_place {
+            options = options.with_output("out");
+        }
+        let res = r.clone();
+        let _ = guarded(move || darklua_core::process(&res, options));
+        let prefix = if in_place { "src/" } else { "out/" };
+        files.iter().map(|(p, _)| (p.to_string(), r.get(format!("{}{}", prefix, p)).unwrap_or_default())).collect()
+    };
+    let mut n = 0;
+    let mut violations = Vec::new();
+    for in_place in [false, true] {
+        n += 1;
+        let dir = match tempfile::tempdir() {
+            Ok(d) => d,
+            Err(_) => return (n, violations),
+        };
+        let root = dir.path();
+        let src = root.join("src");
+        let out = root.join("out");
+        fs::write(root.join("cfg.json5"), config).unwrap();
+        let mut problems = Vec::new();
+        for (round, files) in [v1, v2].iter().enumerate() {
+            for (p, c) in files.iter() {
+                let path = src.join(p);
+                fs::create_dir_all(path.parent().unwrap()).unwrap();
+                fs::write(path, c).unwrap();
+            }
+            let resources = Resources::from_file_system();
+            let mut options = Options::new(&src).with_configuration_at(root.join("cfg.json5"));
+            if !in_place {
+                options = options.with_output(&out);
+            }
+            match guarded(move || darklua_core::process(&resources, options)) {
+                Ok(Ok(t)) => {
+                    let errors: Vec<String> = t.collect_errors().iter().map(|e| e.to_string()).collect();
+                    if !errors.is_empty() {
+                        problems.push(format!("run {}: errors {:?}", round + 1, errors));
+                    }
+                }
+                Ok(Err(e)) => problems.push(format!("run {}: fatal {}", round + 1, e)),
+                Err(p) => problems.push(format!("run {}: PANIC {}", round + 1, p)),
+            }
+            let want = memory(files, in_place);
+            for (p, w) in &want {
+                let path = if in_place { src.join(p) } else { out.join(p) };
+                let got = fs::read_to_string(&path).ok();
+                if got.as_ref() != Some(w) {
+                    problems.push(format!("run {}: {} holds {:?} on disk, the in-memory run of the same tree wrote {:?}", round + 1, p, got, w));
+                }
+                if !in_place && fs::read_to_string(src.join(p)).ok().as_deref() != files.iter().find(|(q, _)| q == p).map(|(_, c)| *c) {
+                    problems.push(format!("run {}: source {} was modified", round + 1, p));
+                }
+            }
+        }
+        if !problems.is_empty() {
+            violations.push(Violation {
+                finding: None,
+                summary: format!("{}\n--- real directory run twice (sources rewritten in between), in_place={}", problems.join("\n"), in_place),
+                replay: json!({"kind": "real fs exact", "in_place": in_place}),
+            });
+        }
+    }
+    (n, violations)
+}
+
 pub fn run_check(tier: Tier) -> Report {
     let mut report = Report::new("C11", "fault_enumeration", tier);
     report.rule = "trees = every set of 1..3 (4 in thorough) Lua files over {a.lua, b.luau, d/c.lua, `d/e f.lua`, d.v2/g.lua, ü.lua} next to non-Lua files; EVERY assignment \
@@ -416,6 +676,19 @@ pub fn run_check(tier: Tier) -> Report {
     report.evaluations += n;
     report.violations.extend(v);
     report.set("real_file_system_cases", n);
+    let (n, v) = real_fs_exact_cases();
+    report.evaluations += n;
+    report.violations.extend(v);
+    report.set("real_file_system_exact_rerun_cases", n);
+    let (n, v) = input_shape_cases();
+    report.evaluations += n;
+    report.violations.extend(v);
+    report.set("directory_spelling_cases", n);
+    let (n, v) = isolation_cases();
+    report.evaluations += n;
+    report.distinct_nontrivial += n;
+    report.violations.extend(v);
+    report.set("isolation_cases", n);
     report.set("cases", cases.len() as u64);
     report.sample(json!({"files": ["a.lua", "d/e f.lua"], "faults": ["Syntax", "Healthy"], "io": "ExistingDir", "fail_fast": false, "permutations": 120}));
     report
